@@ -140,9 +140,12 @@ fn main() {{
 def clone_api_probe(traits):
     """(program, expect_compiles): calling the inherent cloning API compiles iff Clone was requested"""
     dirs = f"#[soa_derive({', '.join(traits)})]" if traits else ""
+    serde = any(t in ("Serialize", "Deserialize") for t in traits)
+    user = "Clone, Debug, PartialEq" + (", serde::Serialize, serde::Deserialize" if serde else "")
     prog = f"""#![allow(dead_code)]
 #[macro_use] extern crate soa_derive;
-#[derive(StructOfArray, Clone, Debug, PartialEq)]
+{"use serde::{Serialize, Deserialize};" if serde else ""}
+#[derive(StructOfArray, {user})]
 {dirs}
 pub struct P {{ pub a: u32, pub b: i16 }}
 fn main() {{
